@@ -287,7 +287,7 @@ def verbatim_substitution(src, offs, mod_tree, beh, goal_text, order, override=N
 
 def run_behaviour(beh):
     try:
-        return pt.with_timeout(60, _run_behaviour, beh)
+        return pt.with_timeout(20, _run_behaviour, beh)
     except pt.Hang:
         src = pt.render(beh["src"])[0]
         return {"fails": [{"clause": "Hang"}], "stats": {"matches": 0, "regions": 0, "goals": 0, "changed": 0,
